@@ -312,3 +312,103 @@ Proof.
   destruct (iter_next (block_fo b) (block_fi b) b (fun q0 => negb (key_gt key q0)) (PAt lo o n' k t v) []) as [acc r] eqn:Ei.
   cbn [snd] in H. subst r. eapply (iter_next_result b _ Hw); [|exact Ei]. cbn [pos_wf]. lia.
 Qed.
+
+(* ---------------------------------------------------------------- prev *)
+Lemma cache_loop_spec : forall b ri, block_wf b -> ri < b_nrest b ->
+  forall fuel off limit key acc, Forall (pos_wf b) acc ->
+  (N.to_nat (b_boundary b - off) < fuel)%nat ->
+  match cache_loop fuel b ri off limit key acc with
+  | SOk ps => Forall (pos_wf b) ps
+  | SErr _ => True
+  | _ => False
+  end.
+Proof.
+  intros b ri Hw Hri. induction fuel as [|fuel IH]; intros off limit key acc Ha Hf; [lia|].
+  cbn [cache_loop]. destruct (off <? limit); [|exact Ha].
+  destruct (extract_key_spec b ri off key Hw) as [[-> _]|[(n & k & t & v & -> & Hn)|[e ->]]]; cbn [sbind]; [exact Ha| |exact I].
+  apply IH; [|lia]. apply Forall_app. split; [exact Ha|]. constructor; [cbn [pos_wf]; lia|constructor].
+Qed.
+
+Lemma cache_restart_spec : forall b ri, block_wf b -> ri < b_nrest b ->
+  match cache_restart b ri with
+  | SOk ps => Forall (pos_wf b) ps
+  | SErr _ => True
+  | _ => False
+  end.
+Proof.
+  intros b ri Hw Hri. unfold cache_restart.
+  destruct (restart_point_ok b ri Hw Hri) as [off ->]. cbn [sbind].
+  assert (Hl : exists limit, (if ri + 1 <? b_nrest b then restart_point b (ri + 1) else SOk (b_boundary b)) = SOk limit).
+  { destruct (N.ltb_spec (ri + 1) (b_nrest b)) as [H|H]; [apply restart_point_ok; assumption|eexists; reflexivity]. }
+  destruct Hl as [limit ->]. cbn [sbind].
+  apply cache_loop_spec; [exact Hw|exact Hri|constructor|].
+  pose proof (block_wf_boundary_le b Hw) as Hbl. unfold block_fi. unfold len in Hbl. lia.
+Qed.
+
+Lemma bc_prev_spec : forall b p, block_wf b -> pos_wf b p ->
+  fine (bc_prev b p) /\ (forall q, bc_prev b p = SOk q -> pos_wf b q).
+Proof.
+  intros b p Hw Hp.
+  assert (Main : forall target cur, target <= b_boundary b -> cur <= b_nrest b ->
+    let r := (if target =? 0 then SOk PFirst
+              else
+                back <-- (if b_nrest b <=? cur then SOk true
+                          else rp <-- restart_point b cur ;; SOk (target <=? rp)) ;;
+                ri <-- (if back then (if cur =? 0 then SErr SLogicNegRestart else SOk (cur - 1)) else SOk cur) ;;
+                ps <-- cache_restart b ri ;;
+                match find (pos_noff_is target) (rev ps) with
+                | Some q => SOk q
+                | None => p1 <-- seek_restart b p ri ;;
+                          snd (iter_block b (fun q => target <=? next_offset_of b q) p1)
+                end) in
+    fine r /\ (forall q, r = SOk q -> pos_wf b q)).
+  { intros target cur Ht Hc. cbv zeta.
+    destruct (N.eqb_spec target 0); [split; [exact I|intros q H; inversion H; exact I]|].
+    assert (Hback : exists back, (if b_nrest b <=? cur then SOk true
+                                  else rp <-- restart_point b cur ;; SOk (target <=? rp)) = SOk back /\
+                                 (back = false -> cur < b_nrest b)).
+    { destruct (N.leb_spec (b_nrest b) cur) as [H|H]; [exists true; split; [reflexivity|discriminate]|].
+      destruct (restart_point_ok b cur Hw H) as [rp ->]. cbn [sbind]. eexists. split; [reflexivity|intros _; exact H]. }
+    destruct Hback as (back & -> & Hb). cbn [sbind].
+    assert (Hri : (exists e, (if back then (if cur =? 0 then SErr SLogicNegRestart else SOk (cur - 1)) else SOk cur) = SErr e) \/
+                  (exists ri, (if back then (if cur =? 0 then SErr SLogicNegRestart else SOk (cur - 1)) else SOk cur) = SOk ri /\ ri < b_nrest b)).
+    { destruct back.
+      - destruct (N.eqb_spec cur 0); [left; eexists; reflexivity|right; eexists; split; [reflexivity|lia]].
+      - right. eexists. split; [reflexivity|]. apply Hb. reflexivity. }
+    destruct Hri as [[e ->]|(ri & -> & Hri)]; cbn [sbind]; [split; [exact I|discriminate]|].
+    pose proof (cache_restart_spec b ri Hw Hri) as Hc2.
+    destruct (cache_restart b ri) as [ps|e| | |]; try contradiction; cbn [sbind]; [|split; [exact I|discriminate]].
+    destruct (find (pos_noff_is target) (rev ps)) as [q|] eqn:Ef.
+    - split; [exact I|]. intros q' H. inversion H; subst q'.
+      apply find_some in Ef. destruct Ef as [Hin _]. apply in_rev in Hin.
+      rewrite Forall_forall in Hc2. apply Hc2. exact Hin.
+    - destruct (seek_restart_spec b p ri Hw) as [(o & n' & k & t & v & -> & H1 & H2)|[e ->]]; cbn [sbind]; [|split; [exact I|discriminate]].
+      assert (Hstop : (fun q => target <=? next_offset_of b q) PLast = true).
+      { cbn [next_offset_of]. apply N.leb_le. exact Ht. }
+      assert (Hp1 : pos_wf b (PAt ri o n' k t v)) by (cbn [pos_wf]; lia).
+      split.
+      + unfold iter_block. apply iter_block_fine; assumption.
+      + intros q H. unfold iter_block in H.
+        destruct (iter_next (block_fo b) (block_fi b) b (fun q0 => target <=? next_offset_of b q0) (PAt ri o n' k t v) []) as [acc r] eqn:Ei.
+        cbn [snd] in H. subst r. apply (proj1 (iter_next_result b _ Hw _ _ _ _ _ _ Hp1 Ei)). }
+  destruct p as [| |ri off noff key ts val]; cbn [bc_prev].
+  - split; [exact I|intros q H; inversion H; exact I].
+  - apply (Main (b_boundary b) (b_nrest b)); [apply N.le_refl|apply N.le_refl].
+  - cbn [pos_wf] in Hp. apply (Main off ri); lia.
+Qed.
+
+Lemma bc_prev_fine : forall b p, block_wf b -> pos_wf b p -> fine (bc_prev b p).
+Proof. intros b p Hw Hp. exact (proj1 (bc_prev_spec b p Hw Hp)). Qed.
+
+(* the backward walk of a block never panics; the only bad outcome left open is the model's fuel,
+   which is reached only if prev() makes no progress (not excluded for forged blocks) *)
+Definition no_panic {A} (r : sres A) : Prop := match r with SPanic | SHuge => False | _ => True end.
+
+Lemma back_loop_no_panic : forall b, block_wf b -> forall fuel p acc, pos_wf b p ->
+  no_panic (snd (back_loop fuel b p acc)).
+Proof.
+  intros b Hw. induction fuel as [|fuel IH]; intros p acc Hp; [exact I|].
+  cbn [back_loop]. destruct (bc_prev_spec b p Hw Hp) as [Hf Hq].
+  destruct (bc_prev b p) as [q|e| | |]; cbn [fine] in Hf; try contradiction; [|exact I].
+  destruct (pos_entry q); [apply IH; apply Hq; reflexivity|exact I].
+Qed.
